@@ -664,6 +664,7 @@ def oracle_history(ops_desc, history, workdir):
         im = Impl(ops_desc, workdir)
         orc = Oracle(ops_desc, workdir)
         nwrite = 0
+        moved = False  # vertices moved since the last write of this assembly
         for step, c in enumerate(history):
             if not orc.wellformed(c):
                 return dict(illformed=True, step=step)
@@ -675,9 +676,16 @@ def oracle_history(ops_desc, history, workdir):
             exp = orc.expect(c)
             if c[0] in ("assemble", "clear", "backport"):
                 nwrite = 0  # writes since the lists were last rebuilt
+                moved = False
             if c[0] == "write":
                 nwrite += 1
             rep = ":repeated-write" if nwrite > 1 else ""
+            if rep and moved:
+                rep += ":after-move"
+            if c[0] == "move":
+                moved = True
+            elif c[0] == "write":
+                moved = False
             where = dict(step=step, call=c, nth_write_since_assembly=nwrite)
             if exp is not None and exp[0] == "error":
                 if err == exp[1]:
@@ -1131,6 +1139,14 @@ def _ebox(x, y, zchop):
 # NOT in scope of the model (total expansions): a wire of an un-chopped axis that is defined by neighbours graded before
 # it takes, on the second write, the tolerance-equal grading of a neighbour graded after it (notes/C12.md, fixes/C12-4.diff).
 # Run only when its signature is registered in known_findings.json (open: reported as KNOWN-FINDING; fixed: must pass).
+# Same root cause, visible symptom: write; move vertices; write raises InconsistentGradingsError when the count of the
+# chopped neighbour follows the edge lengths (start_size): the propagated block keeps the count of the first run.
+MOVE_SIG = "C12:write:raises-InconsistentGradingsError:repeated-write:after-move"
+MOVE_OPS = [dict(pts=[[x, y, z] for (x, y, z) in XYZ], patches={}, extras=[],
+                 chops=[[dict(count=4)], [dict(start_size=0.1)], [dict(count=4)]]),
+            dict(pts=[[1 + x, y, z] for (x, y, z) in XYZ], patches={}, extras=[], chops=[[dict(count=4)], [], []])]
+MOVE_HISTORY = [["add", 0], ["add", 1], ["write"], ["move", 2, [0, 1, 0]], ["move", 3, [0, 1, 0]], ["move", 6, [0, 1, 0]],
+                ["move", 7, [0, 1, 0]], ["move", 9, [0, 1, 0]], ["move", 11, [0, 1, 0]], ["write"]]
 TOLERANCE_SIG = "C12:write:differs:blocks:within-tolerance:repeated-write"
 TOLERANCE_OPS = [_ebox(0, 1, [dict(count=10, total_expansion=2.0)]), _ebox(2, 1, [dict(count=10, total_expansion=2.0)]),
                  _ebox(1, 1, []), _ebox(1, 0, [dict(count=10, total_expansion=2.0 + 1e-8)])]
@@ -1296,17 +1312,20 @@ class C12(Prop):
                 seen.add(r["sig"])
                 h2, r2 = shrink(ops_desc, hist, ctx.work)
                 res.oracle_failures.append(dict(kind="history", ops=ops_desc, history=h2, why=r2["why"], at=r2["step"], sig=r2["sig"]))
-        registered = [f for f in core.load_findings() if f.get("signature") == TOLERANCE_SIG]
-        if registered:
-            r = oracle_history(TOLERANCE_OPS, TOLERANCE_HISTORY, ctx.work)
-            res.count("tolerance_probe=" + ("fails" if r else "passes"))
+        # probes of the stale-propagated-gradings defect (notes/C12.md, fixes/C12-4.diff): run when their signature is
+        # registered in known_findings.json (open: reported as KNOWN-FINDING; fixed: must pass from then on)
+        registered = set(f.get("signature") for f in core.load_findings())
+        for (psig, pops, phist, label) in ((MOVE_SIG, MOVE_OPS, MOVE_HISTORY, "move_probe"),
+                                           (TOLERANCE_SIG, TOLERANCE_OPS, TOLERANCE_HISTORY, "tolerance_probe")):
+            if psig not in registered:
+                res.notes.append("%s (%s) not run: the signature is not registered in known_findings.json; reproduction in "
+                                 "notes/C12.md and corpus/C12/" % (label, psig))
+                continue
+            r = oracle_history(pops, phist, ctx.work)
+            res.count(label + "=" + ("fails" if r else "passes"))
             if r and not r.get("illformed") and r["sig"] not in seen:
                 seen.add(r["sig"])
-                res.oracle_failures.append(dict(kind="history", ops=TOLERANCE_OPS, history=TOLERANCE_HISTORY, why=r["why"],
-                                                at=r["step"], sig=r["sig"]))
-        else:
-            res.notes.append("second write within constants.TOL (gradings with expansions, %s): probe not run, the signature "
-                             "is not registered in known_findings.json; reproduction in notes/C12.md" % TOLERANCE_SIG)
+                res.oracle_failures.append(dict(kind="history", ops=pops, history=phist, why=r["why"], at=r["step"], sig=r["sig"]))
         ctx.log("S3: direct oracle on %d histories in %.1fs, %d failure(s)" % (len(plain) + len(rich), time.time() - t0, len(res.oracle_failures)))
         for (_o, h, _e, er) in rich:
             res.count("rich_outcome=" + (er or "ok"))
